@@ -87,7 +87,7 @@ theorem init_eq_incremental {w : Win} (hw : WinOk w) {s : Node} (h : Reach w s) 
     (∀ x, x ∈ (init w s.chain).view.set ↔ x ∈ s.view.set) ∧
     (∀ x, x ∈ (init w s.chain).view.gap ↔ x ∈ s.view.gap) := by
   have a := (reach_inv hw h).view
-  have b := (reach_inv hw (Reach.restart h)).view
+  have b : ViewOk w s.chain (init w s.chain).view := (reach_inv hw (Reach.restart h)).view
   exact ⟨fun x => by rw [a.1 x, b.1 x], fun x => by rw [a.2 x, b.2 x]⟩
 
 /-- The view's `set` is exactly the id set `TwoPhaseCommitVerifier` collects for the next block. -/
@@ -119,7 +119,7 @@ example : exNode.view.set = [4, 2, 3] ∧ exNode.view.gap = [] := by decide
 example : (switch ⟨1, 2⟩ exNode 1 [[5], [6], [7]]).1.view.set = [7, 6] := by decide
 example : (switch ⟨1, 2⟩ exNode 1 [[5], [6], [7]]).2 = [4, 2, 3] := by decide
 example : (switch ⟨1, 2⟩ exNode 2 []).1.view.set = [2, 3, 1] := by decide
-example : (init ⟨1, 2⟩ exNode.chain).view.set = [2, 3, 4] := by decide
+example : (init ⟨1, 2⟩ exNode.chain).view.set = [4, 2, 3] := by decide
 example : InSet ⟨1, 2⟩ exNode.chain 4 := ⟨3, by decide, by decide, by decide, by decide, by decide⟩
 example : WinOk ⟨1, 2⟩ := ⟨by decide, by decide⟩
 /-- default window (2,10), short chain: everything is still in the gap -/
@@ -128,6 +128,6 @@ example : (init defaultWin [[], [1], [2]]).view.gap = [2] ∧ (init defaultWin [
 
 /-- Why `ChainOk.genesis` is needed: with a proposal in the genesis block the start-up view offers
 it as committable while the verifier (which stops at genesis) would reject it. -/
-example : (init defaultWin [[7], [1], [2]]).view.set = [7, 1] ∧ verifierIds defaultWin [[7], [1], [2]] 3 = [1] := by decide
+example : (init defaultWin [[7], [1], [2]]).view.set = [1, 7] ∧ verifierIds defaultWin [[7], [1], [2]] 3 = [1] := by decide
 
 end CkbVerif.C20
